@@ -2,12 +2,12 @@ package main
 
 import (
 	"fmt"
-	"os"
-	"strconv"
 	"go/constant"
 	"go/token"
 	"go/types"
+	"os"
 	"sort"
+	"strconv"
 	"strings"
 
 	"golang.org/x/tools/go/ssa"
@@ -29,9 +29,9 @@ type aobj struct {
 	v      AV
 	fields []AV
 	elems  []AV
-	join   AV   // a: join of all elements
-	minLen int  // a: known lower bound of the length
-	exact  bool // a: length is exactly minLen
+	join   AV    // a: join of all elements
+	minLen int   // a: known lower bound of the length
+	exact  bool  // a: length is exactly minLen
 	nonEmp uint8 // m: 1 may be empty 2 may be non-empty
 	bad    bool
 	typ    types.Type
@@ -275,30 +275,30 @@ type outcome struct {
 }
 
 type Exec struct {
-	c      *Ctx
-	uni    Atoms // universe of unknown document values
-	resUni Atoms // universe assumed for recursive evaluation results
-	elemUni Atoms // universe of the members of generic containers ([]interface{}, map[string]interface{})
-	label  string
-	hyp    func(x *Exec, callee *ssa.Function, call *ssa.Call, args []AV, p pathInfo) []hypOutcome
-	hypFns map[*ssa.Function]bool
-	events map[string]*event
-	steps  int
-	limit  int
-	depth  int
-	gaps   map[string]token.Pos // unsupported constructs met
-	trunc  bool
-	caller AV
+	c            *Ctx
+	uni          Atoms // universe of unknown document values
+	resUni       Atoms // universe assumed for recursive evaluation results
+	elemUni      Atoms // universe of the members of generic containers ([]interface{}, map[string]interface{})
+	label        string
+	hyp          func(x *Exec, callee *ssa.Function, call *ssa.Call, args []AV, p pathInfo) []hypOutcome
+	hypFns       map[*ssa.Function]bool
+	events       map[string]*event
+	steps        int
+	limit        int
+	depth        int
+	gaps         map[string]token.Pos // unsupported constructs met
+	trunc        bool
+	caller       AV
 	traceReturns bool
-	cli    bool // interpreting cmd/jpgo: library calls are modelled, not inlined
-	curFuzzy bool // the path being interpreted is fuzzy (see pathInfo)
-	truncP *bool // shared truncation flag of the rule's aggregate
-	tableMode bool // evaluating the function-table constructor: maps keep their constant-keyed entries, loops are unrolled further
-	onExit func(status AV, h *Heap, p pathInfo) // os.Exit in the command (J-ABS)
-	onPanic func(arg AV, h *Heap, p pathInfo)    // an explicit panic (API rules)
-	pendingFV []AV // captured variables for the function literal about to be entered
-	ord    func(a, b prov) (int, bool) // order hypothesis on tagged numbers/strings (rule K-ORDER): -1, 0, +1
-	cliGlobals map[string]string // package-level variables of the command initialised to os.Stdout / os.Stderr / os.Stdin
+	cli          bool                                 // interpreting cmd/jpgo: library calls are modelled, not inlined
+	curFuzzy     bool                                 // the path being interpreted is fuzzy (see pathInfo)
+	truncP       *bool                                // shared truncation flag of the rule's aggregate
+	tableMode    bool                                 // evaluating the function-table constructor: maps keep their constant-keyed entries, loops are unrolled further
+	onExit       func(status AV, h *Heap, p pathInfo) // os.Exit in the command (J-ABS)
+	onPanic      func(arg AV, h *Heap, p pathInfo)    // an explicit panic (API rules)
+	pendingFV    []AV                                 // captured variables for the function literal about to be entered
+	ord          func(a, b prov) (int, bool)          // order hypothesis on tagged numbers/strings (rule K-ORDER): -1, 0, +1
+	cliGlobals   map[string]string                    // package-level variables of the command initialised to os.Stdout / os.Stderr / os.Stdin
 }
 
 func (c *Ctx) newExec(uni Atoms, label string) *Exec {
@@ -663,13 +663,13 @@ func (x *Exec) toIface(v AV, T types.Type, h *Heap) AV {
 type contFn func(rets []AV, h *Heap, p pathInfo, fin *frame)
 
 type activation struct {
-	x       *Exec
-	fr0     *ssa.Function
-	visited map[string]bool
+	x        *Exec
+	fr0      *ssa.Function
+	visited  map[string]bool
 	phiCount map[*ssa.Phi]int
 	up       *stackLink
-	k       contFn
-	outs    *[]outcome
+	k        contFn
+	outs     *[]outcome
 }
 
 // run explores fn from its entry with the given arguments.
